@@ -79,11 +79,11 @@ CLAIMED["C16"] = ("52 theorems on the proxy_dex model (pair, farms and energy fa
     "base minted on entry = base + locked burned on exit; energy drops by exactly burned*(unlock - now) incl. expired locks; into_part = floor share, aborts on zero, parts never sum past the whole. "
     "Tied to the real pair + two farm-with-locked-rewards + energy factory + proxy_dex by differential replay.", "52 C16",
     "Coq inductive invariant + characterisation theorems relative to stated callee laws + correspondence")
-CLAIMED["C11"] = ("33 theorems: 26 on the boosted-yields model (farm-boosted-yields on top of the generic weekly-rewards-splitting model; farm-level facts - emission, supply, user position, energy entry - are operation inputs read from the real farm): "
+CLAIMED["C11"] = ("57 theorems: 26 on the boosted-yields model (farm-boosted-yields on top of the generic weekly-rewards-splitting model; farm-level facts - emission, supply, user position, energy entry - are operation inputs read from the real farm): "
     "invariant with ghost ledger for every reachable state; per processed week the payment is exactly min(maxF*R*f/F, (R*cE*e/E + R*cF*f/F)/(cE+cF)) with floor divisions and cross-multiplied bounds against the rational formula, 0 below the minimums / with E, F or R = 0; "
     "claim range = last four completed weeks from the progress week on; (user, week) pairs pairwise distinct over any history; per week cuts = accumulated + remaining + paid + swept, paid <= cuts, frozen total never changes; slice = full*pct/10000 into the running week only; "
-    "collectUndistributed sweeps exactly weeks (last, current-5] once, never inside the window, admin only; every leftover ends in undistributed; 5-slot factor register refines week -> factors of the last accepted call; every accepted configuration has cE + cF > 0 and the formula never divides by zero in any reachable state (after the F7 repair); conservation; and 7 on the CLOSED dex/farm model (Props/C11_closed.v): for every completed week paid + the unguarded amounts of all still-pending users <= the pool (C11_no_underflow), so the guard on remaining(week) never fires and no endpoint aborts in the module half. "
-    "Tied to dex/farm + energy-factory-mock by differential replay of all boosted views; monitors recompute the formula with the user's position BEFORE the operation.", "33 C11",
+    "collectUndistributed sweeps exactly weeks (last, current-5] once, never inside the window, admin only; every leftover ends in undistributed; 5-slot factor register refines week -> factors of the last accepted call; every accepted configuration has cE + cF > 0 and the formula never divides by zero in any reachable state (after the F7 repair); conservation; and 7 on the CLOSED dex/farm model (Props/C11_closed.v): for every completed week paid + the unguarded amounts of all still-pending users <= the pool (C11_no_underflow), so the guard on remaining(week) never fires and no endpoint aborts in the module half; 24 in Props/C11_hosts.v: the same statements for the calling patterns of farm-with-locked-rewards (enterFarm re-reads the energy after lockVirtual) and farm-staking. "
+    "Tied to dex/farm + energy-factory-mock, farm-with-locked-rewards + real energy factory, and farm-staking by differential replay of all boosted views; monitors recompute the formula with the user's position BEFORE the operation.", "57 C11",
     "Coq inductive invariant with ghost ledger + characterisation/refinement theorems + correspondence")
 CLAIMED["C20"] = ("21 theorems: each view defined on the existing models (pair, farm, staking, penalty, price discovery) equals what the corresponding operation delivers in the same state, for all states satisfying the model invariants and all arguments: "
     "getAmountOut/getAmountIn vs both swap modes (quote = delivered / charged, refund = max - quote; view refuses => swap fails; liveness without fee destinations), getTokensForGivenPosition vs removeLiquidity (iff characterisation of the extra guards), "
